@@ -131,6 +131,7 @@ func (p *Validator) validateBuffer(buf []byte, last bool) error {
 		case skipNewline:
 			p.line++
 			p.noff = off
+			i = 0
 			for i, b = range buf[off+1:] {
 				if spaceMap[b] != skipChar {
 					break
